@@ -1,0 +1,14 @@
+//go:build verif
+
+// Contracts for gzv (contract-based deductive verification, /verif). Comment-only file.
+package internal
+
+// C04: the client's timeout interceptor - the only place where the configured timeout and a per-call WithCallTimeout take
+// effect - is installed whenever the Timeout middleware is on, whatever the configured value (0 included), and gets exactly
+// the configured value
+//@ func (c *client) buildUnaryInterceptors
+//@   property C04
+//@   ghost at entry: ti = false
+//@   ghost at after TimeoutInterceptor#0: ti = true
+//@   call TimeoutInterceptor#0: assert arg_timeout == timeout
+//@   ensures_local ti == old(c.middlewares.Timeout)
